@@ -129,9 +129,12 @@ static void file_rt(vf::Ctx& c)
 	Var v = toVar(m);
 	int modes[] = {Json::NONE, Json::PRETTY};
 	int mode = modes[c.rng.below(2)];
+	// Json::write(v, file) without a mode argument: the documented default is PRETTY (a lossless variant)
+	bool defaultMode = !xdl && c.rng.chance(0.25);
+	if (defaultMode) { mode = Json::PRETTY; c.count("file.json-write-with-default-mode"); }
 	std::string path = scratch + vf::fmt("/f%llu.%s", (unsigned long long)c.idx, xdl ? "xdl" : "json");
 	c.desc(vf::fmt("%s file, mode %d, %d nodes", xdl ? "xdl" : "json", mode, countNodes(m)));
-	bool okw = xdl ? Xdl::write(v, path.c_str(), mode) : Json::write(v, path.c_str(), (Json::Mode)mode);
+	bool okw = xdl ? Xdl::write(v, path.c_str(), mode) : defaultMode ? Json::write(v, path.c_str()) : Json::write(v, path.c_str(), (Json::Mode)mode);
 	if (!okw) { unlink(path.c_str()); c.fail("file.write-failed", path); }
 	std::string raw = readRaw(path);
 	Var back = xdl ? Xdl::read(path.c_str()) : Json::read(path.c_str());
